@@ -396,9 +396,23 @@ fn run_case(ctx: &Ctx, acc: &mut Acc, case: &Case, raw_stat: bool) {
             RAW.with(|cell| {
                 let mut raw = cell.borrow_mut();
                 set_subs(&mut raw, case);
+                // Judged as well: the statement speaks of one start/end node per (block, function) pair, i.e. of
+                // blocks shared between functions, which only exist before block duplication. The program is
+                // well-formed apart from the cross-function targets.
                 match compare(&raw.program) {
-                    Err(_) => acc.stat("raw_shared_block_programs_panic", 1),
-                    Ok((d, ..)) if !d.is_empty() => acc.stat("raw_shared_block_programs_differ", 1),
+                    Err(p) => {
+                        acc.stat("raw_shared_block_programs_panic", 1);
+                        ctx.violation(format!("shared-blocks panic {}", site(&p)), serde_json::to_value(case).unwrap(), serde_json::json!({"panic": p, "note": "get_program_cfg on the un-normalized program (blocks shared between functions)"}));
+                    }
+                    Ok((d, ..)) if !d.is_empty() => {
+                        acc.stat("raw_shared_block_programs_differ", 1);
+                        let mut seen = std::collections::BTreeSet::new();
+                        for (class, what) in d {
+                            if seen.insert(class.clone()) {
+                                ctx.violation(format!("shared-blocks {class}"), serde_json::to_value(case).unwrap(), serde_json::json!({"difference": what, "note": "get_program_cfg on the un-normalized program (blocks shared between functions)"}));
+                            }
+                        }
+                    }
                     _ => (),
                 }
             });
